@@ -327,7 +327,7 @@ func init() {
 	Builders["iter"] = buildIter
 	Defs["C15"] = &Def{
 		ID:   "C15",
-		Rule: "real searchctl.Iterative.Launch on small roots (K v K, fortress, checkmated, stalemated, mate-in-1 net) x depth limit {none,1,2,3} x table {off,on} x time control {none, given}; the same with captures-only quiescence at the leaves on roots where a capture mates just beyond the horizon; the same with a table that an earlier analysis of the same root to another depth limit (deeper and shallower) has filled; threads: the iterative-deepening goroutine, its quit-cancel goroutine, a consumer, a halter whose Halt becomes enabled at scheduler step k for a grid of k over the whole run (halt instant enumerated), the hard-limit timer (release step enumerated), a consumer that itself calls Halt as soon as it has received depth 1 or 2 next to that timer (two callers of Halt; timer at every step of a grid and as a lazy thread), the search / quit-cancel / consumer goroutine in turn held back for 60 steps after the halt instant (slow-thread dimension) and, with a time control, every time.Since answered 'short' or 'longer than any limit' (environment deviation); all schedules within the deviation bound. Oracle: reported depths strictly increasing; every reported and every Halt-returned (score, PV with table off) equals a direct fixed-depth search; ends by itself exactly at the depth limit or at the first depth with a forced mate within the depth, never earlier, never without a reason; Halt returns a completed iteration >= 1 at least as deep as everything reported before it was requested. Plus the grid of TimeControl.Limits (sequential; moves to go 0..100 and around every integer width up to 2^63-1), and a free-running engine analysing a three-move root under a grid of time controls incl. clocks of zero and below (overstepped): at least one depth, increasing, ends, Halt returns a completed iteration; a two-minute watchdog turns a hang into a finding; and depth limits 126..130, 254..257, 300, 1023..1025, 4097, 32767..32769, 65535..65537 (around every width a depth or mate distance might be squeezed into, and past round numbers a maintainer might pick as a guard) on a root where every line is a fifty-move draw: increasing depths, ends exactly at the limit. distinct_nontrivial = distinct (depth stream, halt result) classes",
+		Rule: "real searchctl.Iterative.Launch on small roots (K v K, fortress, checkmated, stalemated, mate-in-1 net) x depth limit {none,1,2,3} x table {off,on} x time control {none, given}; the same with captures-only quiescence at the leaves on roots where a capture mates just beyond the horizon; the same with a table that an earlier analysis of the same root to another depth limit (deeper and shallower) has filled; threads: the iterative-deepening goroutine, its quit-cancel goroutine, a consumer, a halter whose Halt becomes enabled at scheduler step k for a grid of k over the whole run (halt instant enumerated), the hard-limit timer (release step enumerated), a consumer that itself calls Halt as soon as it has received depth 1 or 2 next to that timer (two callers of Halt; timer at every step of a grid and as a lazy thread), the search / quit-cancel / consumer goroutine in turn held back for 60 steps after the halt instant (slow-thread dimension) and, with a time control, every time.Since answered 'short' or 'longer than any limit' (environment deviation); all schedules within the deviation bound. Oracle: reported depths strictly increasing; every reported and every Halt-returned (score, PV with table off) equals a direct fixed-depth search; ends by itself exactly at the depth limit or at the first depth with a forced mate within the depth, never earlier, never without a reason; Halt returns a completed iteration >= 1 at least as deep as everything reported before it was requested. Plus the grid of TimeControl.Limits (sequential; moves to go 0..100 and around every integer width up to 2^63-1), and a free-running engine analysing a three-move root under a grid of time controls incl. clocks of zero and below (overstepped): at least one depth, increasing, ends, Halt returns a completed iteration; a two-minute watchdog turns a hang into a finding; and depth limits 126..130, 254..257, 300, 1023..1025, 4097 (thorough: also 32767..32769, 65535..65537) (around every width a depth or mate distance might be squeezed into, and past round numbers a maintainer might pick as a guard) on a root where every line is a fifty-move draw: increasing depths, ends exactly at the limit. distinct_nontrivial = distinct (depth stream, halt result) classes",
 		Gen: func(tier string) []explore.Scenario {
 			roots := []string{kP1, kFortress, kMated, kStale, "7k/8/5K2/6Q1/8/8/8/8 b - - 0 1",
 				"7k/8/6K1/8/8/8/8/R7 b - - 0 1",  // the side to move is mated in 2: the analysis must end at depth 3
@@ -560,7 +560,11 @@ func engineClockGrid(c *harness.Check) {
 func deepLimits(c *harness.Check) {
 	root := "7k/8/8/8/8/8/R7/K7 w - - 99 80"
 	n := 0
-	for _, limit := range []uint{126, 127, 128, 129, 130, 254, 255, 256, 257, 300, 1023, 1024, 1025, 4097, 32767, 32768, 32769, 65535, 65536, 65537} {
+	limits := []uint{126, 127, 128, 129, 130, 254, 255, 256, 257, 300, 1023, 1024, 1025, 4097}
+	if c.Thorough() {
+		limits = append(limits, 32767, 32768, 32769, 65535, 65536, 65537)
+	}
+	for _, limit := range limits {
 		for _, table := range []bool{false, true} {
 			what := fmt.Sprintf("root %q depth limit %d table=%v", root, limit, table)
 			done := make(chan string, 1)
